@@ -12,6 +12,8 @@ import (
 )
 
 type pureDef struct {
+	names    []string
+	retTs    []types.Type
 	name     string
 	text     string
 	heapArgs []string
@@ -725,6 +727,52 @@ func (ex *Exec) applyContract(st *State, con *Contract, sfn *ssa.Function, c *ss
 			}
 		}
 	}
+	// second pass: elems(X) entries are also havocked at the value X has after the field havoc (the callee
+	// may have replaced the map/slice by a new one whose contents only its ensures describe)
+	if !con.ModAll {
+		envPost := *env
+		envPost.st = st
+		for _, m := range con.Mod {
+			c, ok := m.(*ECall)
+			if !ok {
+				continue
+			}
+			if id, ok := c.Fun.(*EIdent); !ok || id.Name != "elems" {
+				continue
+			}
+			var lvs []lvalue
+			func() {
+				defer func() {
+					if r := recover(); r != nil {
+						if se, ok := r.(specErr); ok {
+							unsup("modifies of %s: %s", shortKey(con.Key), se.msg)
+						}
+						panic(r)
+					}
+				}()
+				lvs = envPost.lvalues(m)
+			}()
+			for _, lv := range lvs {
+				cur := g.get(st, lv.comp)
+				sortS := g.comps[lv.comp]
+				es := strings.TrimSuffix(strings.TrimPrefix(sortS, "(Array Int "), ")")
+				fv := g.freshConst("hv", es)
+				if ct, ok := g.compTy[lv.comp]; ok {
+					switch ct.kind {
+					case "A":
+						if rf := g.rangeFact(ct.t, fmt.Sprintf("(select %s i)", fv)); rf != "" {
+							g.addFact(fmt.Sprintf("(forall ((i Int)) (! %s :pattern ((select %s i))))", rf, fv))
+						}
+					case "MV":
+						if rf := g.rangeFact(ct.t, fmt.Sprintf("(select %s k)", fv)); rf != "" {
+							g.addFact(fmt.Sprintf("(forall ((k %s)) (! %s :pattern ((select %s k))))", g.sortOf(ct.key), rf, fv))
+						}
+					}
+				}
+				g.set(st, lv.comp, fmt.Sprintf("(store %s %s %s)", cur, lv.base, fv))
+			}
+		}
+	}
 	// results
 	var results []string
 	rn := resultNames(sig)
@@ -818,21 +866,34 @@ func (ex *Exec) applyPureClosure(st *State, fn *ssa.Function, bindings []string,
 }
 
 func (ex *Exec) applyPure(st *State, fn *ssa.Function, con *Contract, args []string) string {
+	return ex.applyPureN(st, fn, con, args)[0]
+}
+
+// applyPureN returns one term per result of the pure function.
+func (ex *Exec) applyPureN(st *State, fn *ssa.Function, con *Contract, args []string) []string {
 	pd := ex.g.pureDefFor(fn, con)
 	var all []string
 	all = append(all, args...)
+	var out []string
 	if pd.building {
 		// recursive call inside own definition
 		pd.rec = true
-		return fmt.Sprintf("(%s %s %%%%HEAP:%s%%%%)", pd.name, strings.Join(args, " "), pd.name)
+		for i := range pd.names {
+			out = append(out, fmt.Sprintf("(%s %s %%%%HEAP:%s%%%%)", pd.names[i], strings.Join(args, " "), pd.name))
+		}
+		return out
 	}
 	for _, h := range pd.heapArgs {
 		all = append(all, ex.compGet(st, h))
 	}
-	if len(all) == 0 {
-		return pd.name
+	for i := range pd.names {
+		if len(all) == 0 {
+			out = append(out, pd.names[i])
+		} else {
+			out = append(out, fmt.Sprintf("(%s %s)", pd.names[i], strings.Join(all, " ")))
+		}
 	}
-	return fmt.Sprintf("(%s %s)", pd.name, strings.Join(all, " "))
+	return out
 }
 
 func (g *Gen) pureDefFor(fn *ssa.Function, con *Contract) *pureDef {
@@ -845,10 +906,19 @@ func (g *Gen) pureDefFor(fn *ssa.Function, con *Contract) *pureDef {
 	if fn.Blocks == nil {
 		panic(unsupported{"pure function without body: " + key})
 	}
-	if fn.Signature.Results().Len() != 1 {
-		panic(unsupported{"pure function must have exactly one result: " + key})
+	nres := fn.Signature.Results().Len()
+	if nres < 1 {
+		panic(unsupported{"pure function must have a result: " + key})
 	}
-	pd.retT = fn.Signature.Results().At(0).Type()
+	for i := 0; i < nres; i++ {
+		if nres == 1 {
+			pd.names = append(pd.names, pd.name)
+		} else {
+			pd.names = append(pd.names, fmt.Sprintf("|pure:%s#%d|", shortKey(key), i))
+		}
+		pd.retTs = append(pd.retTs, fn.Signature.Results().At(i).Type())
+	}
+	pd.retT = pd.retTs[0]
 	ex := newExec(g, fn, con)
 	ex.pureMode = true
 	ex.selfName = pd.name
@@ -864,7 +934,7 @@ func (g *Gen) pureDefFor(fn *ssa.Function, con *Contract) *pureDef {
 		params = append(params, fmt.Sprintf("(%s Int)", n))
 	}
 	st := g.entryState()
-	body := ex.pureBlock(fn.Blocks[0], nil, st, 0)
+	bodies := ex.pureBlock(fn.Blocks[0], nil, st, 0)
 	pd.building = false
 	for h := range ex.heapArgs {
 		pd.heapArgs = append(pd.heapArgs, h)
@@ -876,17 +946,24 @@ func (g *Gen) pureDefFor(fn *ssa.Function, con *Contract) *pureDef {
 		hp = append(hp, fmt.Sprintf("(%s %s)", g.compSym(h, "e0"), g.comps[h]))
 		hargs = append(hargs, g.compSym(h, "e0"))
 	}
-	body = strings.ReplaceAll(body, "%%HEAP:"+pd.name+"%%", strings.Join(hargs, " "))
 	kw := "define-fun"
 	if pd.rec {
 		kw = "define-fun-rec"
+		if nres > 1 {
+			panic(unsupported{"recursive pure function with several results: " + key})
+		}
 	}
-	pd.text = fmt.Sprintf("(%s %s (%s) %s %s)", kw, pd.name, strings.Join(append(params, hp...), " "), g.sortOf(pd.retT), body)
+	var texts []string
+	for i, body := range bodies {
+		body = strings.ReplaceAll(body, "%%HEAP:"+pd.name+"%%", strings.Join(hargs, " "))
+		texts = append(texts, fmt.Sprintf("(%s %s (%s) %s %s)", kw, pd.names[i], strings.Join(append(append([]string{}, params...), hp...), " "), g.sortOf(pd.retTs[i]), body))
+	}
+	pd.text = strings.Join(texts, "\n")
 	g.pureOrd = append(g.pureOrd, key)
 	return pd
 }
 
-func (ex *Exec) pureBlock(b *ssa.BasicBlock, pred *ssa.BasicBlock, st *State, depth int) string {
+func (ex *Exec) pureBlock(b *ssa.BasicBlock, pred *ssa.BasicBlock, st *State, depth int) []string {
 	if depth > 400 {
 		unsup("pure function too deep / loops: %s", ex.fn.Name())
 	}
@@ -903,17 +980,29 @@ func (ex *Exec) pureBlock(b *ssa.BasicBlock, pred *ssa.BasicBlock, st *State, de
 			c := ex.val(x.Cond)
 			t := ex.pureBlock(b.Succs[0], b, st.clone(), depth+1)
 			e := ex.pureBlock(b.Succs[1], b, st.clone(), depth+1)
-			return fmt.Sprintf("(ite %s %s %s)", c, t, e)
+			var out []string
+			for i := range t {
+				out = append(out, fmt.Sprintf("(ite %s %s %s)", c, t[i], e[i]))
+			}
+			return out
 		case *ssa.Jump:
 			return ex.pureBlock(b.Succs[0], b, st, depth+1)
 		case *ssa.Return:
-			return ex.val(x.Results[0])
+			var out []string
+			for _, r := range x.Results {
+				out = append(out, ex.val(r))
+			}
+			return out
 		case *ssa.Panic:
-			return ex.g.zero(ex.fn.Signature.Results().At(0).Type())
+			var out []string
+			for i := 0; i < ex.fn.Signature.Results().Len(); i++ {
+				out = append(out, ex.g.zero(ex.fn.Signature.Results().At(i).Type()))
+			}
+			return out
 		default:
 			ex.step(st, in)
 		}
 	}
 	unsup("block without terminator")
-	return ""
+	return nil
 }
